@@ -142,6 +142,8 @@ def run_real(R, hist_inputs, envs):
     """hist_inputs: list of (sid, text). Returns list of result strings."""
     res = []
     for sid, text in hist_inputs:
+        before = R.new_env()
+        before._variables = dict(envs[sid]._variables)
         r = R.execute(text, env=envs[sid])
         if r["escaped"]:
             res.append("escaped:" + r["escaped"])
@@ -149,9 +151,9 @@ def run_real(R, hist_inputs, envs):
             v = r["value"]
             res.append("ok:none" if v is None else "ok:" + str(canon_val(v, R.types)))
         else:
-            e = r["err"]
-            res.append("err:unassigned" if "Unassigned variable" in e else "err:unknownfn" if "Unknown function" in e
-                       else "err:unknownunit" if "Unknown unit" in e else "err:other:" + e[:40])
+            # the CLASS of the diagnosed error (never its wording): the same input on a copy of the bindings it started from
+            k, c = R.value(text, env=before)
+            res.append("err:" + (c if k == "err" else "none-on-rerun"))
     return res
 
 
@@ -221,7 +223,8 @@ def _check_main(ctx):
                 if (c_res, env_canon(env_c[sid], T)) != (ref_res, env_canon(env_ref[sid], T)):
                     ctx.violation("sess-split:" + " | ".join(parts), " | ".join(parts), "%s | %s" % (ref_res, env_canon(env_ref[sid], T)),
                                   "%s | %s" % (c_res, env_canon(env_c[sid], T)), "execute() of the parts in order on one EvalEnvironment")
-    ctx.correspond("sess", cases)
+    # the model tells unassigned names from unknown units; in the code both are an EvalError
+    ctx.correspond("sess", cases, agree=lambda real, model, info: real == model.replace("err:unassigned", "err:eval").replace("err:unknownunit", "err:eval"))
     # ---- one input vs successive inputs when a statement FAILS (every kind of evaluation error; assignments before it
     #      must persist exactly as if the statements had been fed one by one)
     pool_ok = ["a = 1", "b = a + 1", "a = a * 2", "c = 3 m", "a", "b", "x = 5", "y = x + a", "{t : t in 1..3}", "s = 2; s"]
